@@ -9,8 +9,7 @@
 
 void simacc_conf_forget(void);
 void simacc_mem_forget(void);
-void *(*pcre_malloc)(size_t);
-void (*pcre_free)(void *);
+#include <pcre.h>
 
 void world_reset(const plan_t *p)
 {
